@@ -22,9 +22,51 @@ ORACLE_HOOKS = os.path.join(BUILD, "oracle")
 
 
 def needs_hooks(req):
+    req = strip_tz(req)
     return req.startswith("locks ") or req == "rules types" or req.startswith("meta ")
 
 
+# The process environment of the real code is part of "every input": a request may carry the token
+# "@tz=<zone>" in front; the oracle then answers it with time.Local set to that zone (what a process
+# started with TZ=<zone> sees). The model has no environment: its answer is the same for every prefix.
+# "" = the zone the check itself runs in (UTC in this sandbox). The list mixes zones west and east of
+# Greenwich, zones whose offset changed sign (London 1847, Apia 1892/2011, Kiritimati 1994, Lisbon),
+# zones whose daylight-saving jump is at local midnight (Sao_Paulo, Havana), and odd offsets.
+TZS = ["", "America/New_York", "Europe/London", "Pacific/Apia", "Asia/Tehran", "America/Sao_Paulo",
+       "Pacific/Kiritimati", "Pacific/Honolulu", "Asia/Kathmandu", "America/Havana", "Australia/Lord_Howe",
+       "Europe/Lisbon"]
+TZ_RUN = 32      # consecutive requests of one oracle process that share a zone
+
+
+def strip_tz(req):
+    if req.startswith("@"):
+        return req.split(" ", 1)[1] if " " in req else ""
+    return req
+
+
+def with_tz(tz, req):
+    if not tz or req.startswith("@") or needs_hooks(req):
+        return req
+    return "@tz=%s %s" % (tz, req)
+
+
+def nchunks(nreq, nworkers=None):
+    return max(1, min(nworkers or NCPU, nreq // 50 + 1))
+
+
+def decorate_tz(requests, groups):
+    """Give every request a local zone, in runs of TZ_RUN requests as one oracle process sees them."""
+    if os.environ.get("VERIF_NO_TZ"):
+        return requests, groups
+    L = len(TZS)
+    if groups:
+        gs = [[with_tz(TZS[(gi + j // TZ_RUN) % L], r) for j, r in enumerate(g)] for gi, g in enumerate(groups)]
+        return [r for g in gs for r in g], gs
+    n = nchunks(len(requests))
+    return [with_tz(TZS[((i // n) // TZ_RUN + i % n) % L], r) for i, r in enumerate(requests)], None
+
+
+ORACLE_WINDOW = 64    # requests the oracle reads at a time (harness/cmd/oracle/main.go windowSize)
 EXTRACT = os.path.join(BUILD, "extract")
 DRIVER = os.path.join(LEAN, ".lake", "build", "bin", "driver")
 NCPU = min(16, os.cpu_count() or 4)
@@ -238,6 +280,7 @@ class StreamResult:
         self.crashed = None
         self.distinct = 0
         self.weight = 0           # number of elementary evaluations (e.g. days hashed)
+        self.context = {}         # request -> the other requests of its window (failures seen with concurrent callers)
 
 
 def _serve(binary, reqfile, outfile):
@@ -262,7 +305,7 @@ def run_stream(name, requests, workdir, nworkers=NCPU, compare=None, weight=None
     if not requests:
         return res
     os.makedirs(workdir, exist_ok=True)
-    n = max(1, min(nworkers, len(requests) // 50 + 1))
+    n = nchunks(len(requests), nworkers)
     if groups:
         # stateful protocol: a group (header + its queries) stays together, in order
         chunks = [[] for _ in range(n)]
@@ -308,16 +351,20 @@ def run_stream(name, requests, workdir, nworkers=NCPU, compare=None, weight=None
                 if item.startswith("!PROP "):
                     _, pid, text = item.split(" ", 2)
                     res.props.append((req, pid, text))
-            same = compare(req, iresp, ml) if compare else (iresp == ml)
+                    if "goroutines" in text and req not in res.context:
+                        w0 = (k // ORACLE_WINDOW) * ORACLE_WINDOW
+                        res.context[req] = [x for x in ch[w0:w0 + ORACLE_WINDOW] if x != req]
+            bare = strip_tz(req)
+            same = compare(bare, iresp, ml) if compare else (iresp == ml)
             if not same:
                 res.mismatches.append(Mismatch(req, iresp, ml))
             elif len(selfcases) < 6 and ml not in ("unmodelled", "bad-request", "err", "") and (k % 97 == 0 or len(ch) < 97):
                 selfcases.append((req, iresp, ml))
             kind = response_kind(iresp)
             res.kinds[kind] = res.kinds.get(kind, 0) + 1
-            if kind not in ("err", "bad-request", "unmodelled") and req not in seen:
-                seen.add(req)
-            res.weight += weight(req) if weight else 1
+            if kind not in ("err", "bad-request", "unmodelled") and bare not in seen:
+                seen.add(bare)
+            res.weight += weight(bare) if weight else 1
         for p in (rq, im, mo):
             try:
                 os.remove(p)
@@ -336,7 +383,7 @@ def run_stream(name, requests, workdir, nworkers=NCPU, compare=None, weight=None
             if wrong == iresp:
                 continue
             res.selftests += 1
-            still_same = compare(req, iresp, wrong) if compare else (iresp == wrong)
+            still_same = compare(strip_tz(req), iresp, wrong) if compare else (iresp == wrong)
             if still_same:
                 res.selftest_failures.append((req, iresp, wrong))
     allreq = requests
